@@ -24,12 +24,21 @@ pub fn strategy(max_ops: usize) -> BoxedStrategy<HistoryCase> {
         .prop_flat_map(move |peers| (Just(peers), proptest::collection::vec(op_strategy(peers, 2), 4..max_ops)))
         .prop_map(|(peers, mut ops)| {
             // every history starts with rows of both entities held by two users
+            // (row indices are mapped monotonically onto the rows that exist: of three rows, 0 is the first,
+            // 21846 the second, 43691 the third)
+            let item = |text: u8| Action::Create { entity: 0, room: 0, text, parent: None };
             let head = vec![
-                Op::Burst { peer: 0, n: 5, stream: false, room: 0 },
-                Op::Write { peer: 1, dt: 3, action: Action::Create { entity: 0, room: 1, text: 3, parent: None } },
+                Op::Write { peer: 0, dt: 3, action: item(1) },
+                Op::Write { peer: 0, dt: 3, action: item(2) },
+                Op::Write { peer: 0, dt: 3, action: item(3) },
+                Op::Write { peer: 0, dt: 3, action: Action::AddLink { row: 0, target: 43691 } },
+                Op::Write { peer: 0, dt: 3, action: Action::SetParent { row: 43691, target: Some(0) } },
                 Op::Sync { puller: 1, server: 0 },
-                Op::Write { peer: 1, dt: 3, action: Action::Create { entity: 0, room: 0, text: 4, parent: Some(0) } },
-                Op::Write { peer: 1, dt: 3, action: Action::AddLink { row: 0, target: 2 } },
+                // another user removes references from rows it did not author, and changes one
+                Op::Write { peer: 1, dt: 3, action: Action::DeleteLink { row: 0, target: 43691 } },
+                Op::Write { peer: 1, dt: 3, action: Action::SetParent { row: 43691, target: None } },
+                Op::Write { peer: 1, dt: 3, action: Action::Update { row: 21846, value: 3 } },
+                Op::Write { peer: 1, dt: 3, action: Action::Create { entity: 1, room: 1, text: 3, parent: Some(0) } },
                 Op::Sync { puller: 0, server: 1 },
             ];
             ops.splice(0..0, head);
